@@ -493,8 +493,12 @@ impl<R, M> FluentBundle<R, M> {
         M: MemoizerKind,
     {
         let mut scope = Scope::new(self, args, Some(errors));
-        let value = pattern.resolve(&mut scope);
-        value.into_string(&scope)
+        // The resolved pattern is final text: the custom formatter applies to the values
+        // interpolated into it, not to the result (`write_pattern` does not apply it either).
+        match pattern.resolve(&mut scope) {
+            FluentValue::String(s) => s,
+            value => value.into_string(&scope),
+        }
     }
 
     /// Makes the provided rust function available to messages with the name `id`. See
